@@ -2,7 +2,7 @@
 C02, joint model, ALL node kinds (one-to-one, one-to-many, many-to-one), part 1: class T5 – any forward links into
 existing in-ports –, what an in-port holds, the global invariant `HI` over the abstract tracer states of the nodes
 (node relation `FlowM.JBm`, per-thread log invariant `FlowM.NLm`), and the initial state.
-(The files `FlowN*` are the in-port-indexed version of `FlowH8..29`.)
+(The files `FlowN*` are the in-port-indexed successors of the former `FlowH8..29` – classes T3/T4 –, which they subsume.)
 -/
 import Uniflow.Proofs.FlowM9
 
